@@ -158,3 +158,8 @@ package ipfsproxy
 //@   ensures [extract-headers-path] err == nil ==> jcfg.ExtractHeadersPath == ite(cfg.ExtractHeadersPath != DefaultExtractHeadersPath, cfg.ExtractHeadersPath, "")
 //@   ensures [extract-headers-ttl] err == nil ==> jcfg.ExtractHeadersTTL == ite(cfg.ExtractHeadersTTL != DefaultExtractHeadersTTL, cfg.ExtractHeadersTTL.String(), "")
 //@   modifies nothing
+
+// ---- "answers pin add/rm/ls/update, add, repo stat and repo gc itself by performing the corresponding cluster
+// operation": the hijack route table, in both argument styles, and nothing else is hijacked ----
+//@ directive route_handlers New /pin/add=proxy.pinHandler /pin/add/{arg}=slashHandler(proxy.pinHandler) /pin/rm=proxy.unpinHandler /pin/rm/{arg}=slashHandler(proxy.unpinHandler) /pin/ls=proxy.pinLsHandler /pin/ls/{arg}=slashHandler(proxy.pinLsHandler) /pin/update=proxy.pinUpdateHandler /add=proxy.addHandler /repo/stat=proxy.repoStatHandler /repo/gc=proxy.repoGCHandler
+//@   property C12
